@@ -676,8 +676,8 @@ func c02Worker(sh *explore.Shard) {
 	maxN := 3
 	lens := []int{0, 7}
 	if sh.Tier == "thorough" {
-		maxN = 3
-		lens = []int{0, 7, 7, 30}
+		maxN = 4
+		lens = []int{0, 7, 30}
 	}
 	// (a) commits: all DAGs x message-length vectors (ties included) x all linear extensions
 	for nn := 1; nn <= maxN+1 && !sh.Expired(); nn++ {
